@@ -86,3 +86,22 @@ fn c17_5b_value_raw_value() {
     kani::cover!(!live);
     core::mem::forget(info);
 }
+
+// @ob id=C19.8c,C17.4c strength=bounded tier=quick bound="input ranges (0,8), (8,0) [inverted], (-1,1); output range (0,64) or (64,0); inputs from {-4, 0, 2, 4, 8, 12}; linear easing (all values dyadic, arithmetic exact)" fn=value.rs::Mapping::map
+// @req grid values
+// @ens map(x) = out_lo + (out_hi - out_lo) * clamp((x - in_lo)/(in_hi - in_lo), 0, 1), also for inverted input ranges: the range start maps to the first output bound, the range end to the second, inputs beyond either end to that end's bound, inputs inside are interpolated
+#[kani::proof]
+#[kani::unwind(8)]
+fn c19_8c_mapping_grid() {
+    let (lo, hi) = match kani::any::<u8>() % 3 { 0 => (0.0f64, 8.0f64), 1 => (8.0, 0.0), _ => (-1.0, 1.0) };
+    let (a, b) = if kani::any() { (0.0f64, 64.0f64) } else { (64.0, 0.0) };
+    let x = match kani::any::<u8>() % 6 { 0 => -4.0f64, 1 => 0.0, 2 => 2.0, 3 => 4.0, 4 => 8.0, _ => 12.0 };
+    let m = Mapping { input_range: (lo, hi), output_range: (a, b), easing: Easing::Linear };
+    let mut t = (x - lo) / (hi - lo);
+    if t < 0.0 { t = 0.0; }
+    if t > 1.0 { t = 1.0; }
+    let want = a + (b - a) * t;
+    assert!(m.map(x) == want, "C19.8c: a mapping clamps its input to the input range and interpolates inside it (also for inverted ranges)");
+    kani::cover!(lo > hi && x == 2.0);
+    kani::cover!(lo < hi && x == 12.0);
+}
